@@ -518,7 +518,10 @@ func TestC13(t *testing.T) {
 			"//a[//b[. = $n]]", "//*[count(//a[. >= $n]) > 0]", "//a[/descendant::b = $s]", "//*[. = //a[. = $n]]", "//k:*", "count(//k:a)", "//*[k:b]",
 			// plain absolute paths inside predicates; whole-document selections handed to the caller as they are
 			"//a[. = //b]", "//*[. = /*/*]", "//a[/*/b]", "//b[not(. = //a)]", "//*[count(/*/*) > 1]", "/descendant-or-self::node()", "//.", "//*", "/", ".", "*", "@*", "//text()", "//a", "//b", "//c",
-			"descendant-or-self::node()", "/*", "//*[1]", "..", "self::node()", "ancestor-or-self::node()", "following::node()", "preceding::node()"}
+			"descendant-or-self::node()", "/*", "//*[1]", "..", "self::node()", "ancestor-or-self::node()", "following::node()", "preceding::node()",
+			// names rendered by the library; the implicit xml prefix
+			"name(//x:*)", "name(//*[namespace-uri() != ''])", "//*[starts-with(name(), 'x:')]", "name(/*)", "name(//@*[namespace-uri() != ''])", "count(//*[name() = 'x:a'])", "concat(name(//x:a), '|', name(//y:a))",
+			"//@xml:lang", "//xml:*", "count(//@xml:*)", "//*[@xml:lang]", "$xml:n"}
 		for i, n := 0, rapid.IntRange(3, 6).Draw(t, "nExprs"); i < n; i++ {
 			if rapid.Bool().Draw(t, "fixedExpr") {
 				c.Exprs = append(c.Exprs, fixed[rapid.IntRange(0, len(fixed)-1).Draw(t, "fixed")])
